@@ -64,8 +64,8 @@ Section Reread.
   (* one node, written and read back *)
   Definition rnode (nd : node) : node :=
     match nd with
-    | NSection l => NSection (to_ginlines dir (rr_inlines o l))
-    | NLeaf l => leaf_node dir (DPara (0, 0) (rr_inlines o l))
+    | NSection l => NSection (to_ginlines dir (rr_inlines o (rel_inlines dir l)))
+    | NLeaf l => leaf_node dir (DPara (0, 0) (rr_inlines o (rel_inlines dir l)))
     | NRef key text rt =>
         leaf_node dir (DPara (0, 0) (rr_inlines o [Link (to_rel_link_url key dir) "" rt (ref_ils text rt)]))
     | NRaw lang c => NRaw (rr_lang lang) (trim_lf c +++ LFS)
@@ -228,7 +228,7 @@ Section Reread.
   (* one list item *)
   Lemma item_step f sp k i l ck :
     KIDS ck -> shaped (T i (NSection l) ck) = true ->
-    let it := (if first_is_leaf ck then GPara l else GPlain l) :: Pd 0 ck in
+    let it := (if first_is_leaf ck then GPara (rel_inlines dir l) else GPlain (rel_inlines dir l)) :: Pd 0 ck in
     led it = true -> forallb gstruct it = true ->
     4 * dblocks_size (rr_seq o sp k (item_body it)) + 5 <= f ->
     item_tree dir f (rr_seq o sp k (item_body it)) = [reread (T i (NSection l) ck)].
@@ -237,7 +237,7 @@ Section Reread.
     assert (Hp : pts ck = true) by (cbn [shaped] in Hs; now apply andb_prop in Hs as [_ Hp]).
     cbn [forallb] in Hg. apply andb_prop in Hg as [_ Hg].
     destruct f as [|f]; [lia|]. rewrite item_tree_S, reread_T. cbn [rnode].
-    destruct l as [|i0 l].
+    destruct l as [|i0 l]; unfold rel_inlines in *; cbn [map] in *.
     - (* no text: the item is written from its second block on *)
       assert (Eb : item_body it = Pd 0 ck) by (unfold it; destruct (first_is_leaf ck); reflexivity).
       rewrite Eb in *.
@@ -254,7 +254,7 @@ Section Reread.
       + destruct rest as [|y rest]; [discriminate Hh|]. rewrite rr_blist in *. cbn [rr_seq] in *. rewrite E. reflexivity.
       + cbn [rr_block] in *. rewrite E. reflexivity.
     - assert (Eb : rr_seq o sp k (item_body it) =
-                   DPara (k, k + 1) (rr_inlines o (i0 :: l)) :: rr_seq o sp (k + 1 + sp) (Pd 0 ck))
+                   DPara (k, k + 1) (rr_inlines o (rel_inline dir i0 :: map (rel_inline dir) l)) :: rr_seq o sp (k + 1 + sp) (Pd 0 ck))
         by (unfold it; destruct (first_is_leaf ck); reflexivity).
       rewrite Eb in *. rewrite dblocks_size_cons in Hf. cbn [lead_inlines]. do 2 f_equal.
       apply HK; auto. lia.
@@ -270,7 +270,7 @@ Section Reread.
     cbn [forallb map] in Hsh, Hsec, Hg. apply andb_prop in Hsh as [Hsx Hsr]. apply andb_prop in Hsec as [Hx1 Hr1].
     apply andb_prop in Hg as [Hgx Hgr]. apply andb_prop in Hgx as [Hl Hgx].
     destruct x as [i nd ck]. unfold is_section in Hx1. cbn [t_node] in Hx1. destruct nd; try discriminate.
-    cbn [t_children] in Hx. cbn [map rr_items flat_map items_size] in *. cbn [item_of node_inlines] in *.
+    cbn [t_children] in Hx. cbn [map rr_items flat_map items_size] in *. cbn [item_of] in *. unfold out_inlines in *. cbn [node_inlines] in *.
     rewrite (item_step f sp k i l ck Hx Hsx Hl Hgx ltac:(lia)). cbn [app]. f_equal.
     apply IH; auto. lia.
   Qed.
@@ -711,8 +711,8 @@ Proof. unfold reread. now rewrite tsz_tmap, tsz_erase. Qed.
 Lemma rnode_section dir o nd : node_is_section (rnode dir o nd) = node_is_section nd.
 Proof.
   destruct nd; try reflexivity; cbn [rnode].
-  - pose proof (leaf_node_not_section dir (DPara (0, 0) (rr_inlines o l))) as H.
-    destruct (leaf_node dir (DPara (0, 0) (rr_inlines o l))); try reflexivity. contradiction.
+  - pose proof (leaf_node_not_section dir (DPara (0, 0) (rr_inlines o (rel_inlines dir l)))) as H.
+    destruct (leaf_node dir (DPara (0, 0) (rr_inlines o (rel_inlines dir l)))); try reflexivity. contradiction.
   - set (b := DPara (0, 0) (rr_inlines o [Link (to_rel_link_url key dir) "" rt (ref_ils text rt)])).
     pose proof (leaf_node_not_section dir b) as H. destruct (leaf_node dir b); try reflexivity. contradiction.
 Qed.
@@ -1165,7 +1165,7 @@ Proof. now rewrite <- (shaped_erase (label t r)), erase_label, shaped_erase. Qed
 Lemma kc_rnode dir o nd : kc (rnode dir o nd) = kc nd.
 Proof.
   destruct nd; try reflexivity; cbn [rnode leaf_node].
-  - destruct (rr_inlines o l) as [|[] [|]]; try reflexivity. destruct (is_ref_url url); reflexivity.
+  - destruct (rr_inlines o _) as [|[] [|]]; try reflexivity. destruct (is_ref_url url); reflexivity.
   - destruct (rr_inlines o _) as [|[] [|]]; try reflexivity. destruct (is_ref_url url); reflexivity.
 Qed.
 Lemma kc_norm ctx nd : kc (norm_node ctx nd) = kc nd.
